@@ -569,10 +569,55 @@ theorem versionBlock_true {h : H5} (hv : versionBlock h = some true) (hp : (h.at
     | real q => cases hv
     | other => cases hv
 
-/-- **HDF5, the part that is enforced.**  A file reported valid has the eight required attributes,
-    the eight groups and eight datasets of the 2.1 specification, a `shape` attribute that is a pair
-    of integers equal to the lengths of the two `ids` datasets, format version 2.1, per-ID metadata
-    stored as groups whose every category has one entry per ID.
+/-- what the checks shared by every requested version establish -/
+theorem common_true {dateOk : String → Bool} {h : H5}
+    (hv : ∀ c ∈ checksCommon dateOk h, c = some true) :
+    attrsB h = true ∧ coreGroupsB h = true ∧ datasetsB h = true ∧ shapeHB h = true ∧
+    (h.attr "format-version").isSome = true ∧
+    ∃ n m, h.lenOf ["observation", "ids"] = some n ∧ h.lenOf ["sample", "ids"] = some m := by
+  simp only [checksCommon, List.mem_append, List.mem_cons, List.not_mem_nil, or_false, List.mem_map,
+    coreGroups, requiredDatasets] at hv
+  have a1 := attrCheck_true (hv _ (Or.inl (Or.inl (Or.inl (Or.inl rfl)))))
+  have a2 := attrCheck_true (hv _ (Or.inl (Or.inl (Or.inl (Or.inr (Or.inl rfl))))))
+  have a3 := attrCheck_true (hv _ (Or.inl (Or.inl (Or.inl (Or.inr (Or.inr (Or.inl rfl)))))))
+  have a4 := attrCheck_true (hv _ (Or.inl (Or.inl (Or.inl (Or.inr (Or.inr (Or.inr (Or.inl rfl))))))))
+  have a5 := attrCheck_true (hv _ (Or.inl (Or.inl (Or.inl (Or.inr (Or.inr (Or.inr (Or.inr (Or.inl rfl)))))))))
+  have a6 := attrCheck_true (hv _ (Or.inl (Or.inl (Or.inl (Or.inr (Or.inr (Or.inr (Or.inr (Or.inr (Or.inl rfl))))))))))
+  have a7 := attrCheck_true (hv _ (Or.inl (Or.inl (Or.inl (Or.inr (Or.inr (Or.inr (Or.inr (Or.inr (Or.inr (Or.inl rfl)))))))))))
+  have a8 := attrCheck_true (hv _ (Or.inl (Or.inl (Or.inl (Or.inr (Or.inr (Or.inr (Or.inr (Or.inr (Or.inr (Or.inr rfl)))))))))))
+  obtain ⟨sv, hsv, hsh⟩ := a4
+  obtain ⟨r, c, rfl⟩ := hShape_true hsh
+  have hg : ∀ p, (p = ["observation"] ∨ p = ["sample"] ∨ p = ["observation", "matrix"] ∨
+      p = ["sample", "matrix"]) → h.has p = true := by
+    intro p hp
+    have := hv (some (h.has p)) (Or.inl (Or.inl (Or.inr ⟨p, hp, rfl⟩)))
+    simpa using this
+  have hd : ∀ p, (p = ["observation", "ids"] ∨ p = ["observation", "matrix", "data"] ∨
+      p = ["observation", "matrix", "indices"] ∨ p = ["observation", "matrix", "indptr"] ∨
+      p = ["sample", "ids"] ∨ p = ["sample", "matrix", "data"] ∨ p = ["sample", "matrix", "indices"] ∨
+      p = ["sample", "matrix", "indptr"]) → h.has p = true := by
+    intro p hp
+    have := hv (some (h.has p)) (Or.inl (Or.inr ⟨p, hp, rfl⟩))
+    simpa using this
+  have hsb : ∀ x ∈ shapeBlock h, x = some true := fun x hx => hv x (Or.inr hx)
+  simp only [shapeBlock, hsv, unpackA, List.mem_cons, List.not_mem_nil, or_false, forall_eq_or_imp,
+    forall_eq] at hsb
+  obtain ⟨n, hn, hnr⟩ := idsLenCheck_true hsb.1
+  obtain ⟨m, hm, hmc⟩ := idsLenCheck_true hsb.2
+  obtain ⟨_, h2, _⟩ := a2
+  refine ⟨?_, ?_, ?_, ?_, by simp [h2], n, m, hn, hm⟩
+  · obtain ⟨_, h1, _⟩ := a1; obtain ⟨_, h3, _⟩ := a3
+    obtain ⟨_, h5, _⟩ := a5; obtain ⟨_, h6, _⟩ := a6; obtain ⟨_, h7, _⟩ := a7; obtain ⟨_, h8, _⟩ := a8
+    simp [attrsB, requiredAttrs, h1, h2, h3, hsv, h5, h6, h7, h8]
+  · simp [coreGroupsB, coreGroups, hg]
+  · simp [datasetsB, requiredDatasets, hd]
+  · simp [shapeHB, shapeOfH, hsv, hn, hm, hnr, hmc]
+
+/-- **HDF5, the part that is enforced** (requested version 2.1: `format_version` None, '2.1' or
+    '2.1.0').  A file reported valid has the eight required attributes, the eight groups and eight
+    datasets of the 2.1 specification, a `shape` attribute that is a pair of integers equal to the
+    lengths of the two `ids` datasets, format version 2.1, per-ID metadata stored as groups whose every
+    category has one entry per ID.
     NOT established (the full statement `validateH5 = valid → structuralHB` is false, see the
     `_witness` theorems): `indicesInRange`, `elementsTyped`, `idsNonEmpty`, `idsDistinct`. -/
 theorem valid_h5_structural_partial (dateOk : String → Bool) (h : H5)
@@ -581,52 +626,48 @@ theorem valid_h5_structural_partial (dateOk : String → Bool) (h : H5)
     shapeHB h = true ∧ version21 h = true ∧ mdKindB h = true ∧ mdLensB h = true := by
   unfold validateH5 at hv
   rw [verdictOf_valid] at hv
-  simp only [checksH, List.mem_append, List.mem_cons, List.not_mem_nil, or_false, List.mem_map,
-    coreGroups, requiredDatasets] at hv
-  have a1 := attrCheck_true (hv _ (Or.inl (Or.inl (Or.inl (Or.inl (Or.inl rfl))))))
-  have a2 := attrCheck_true (hv _ (Or.inl (Or.inl (Or.inl (Or.inl (Or.inr (Or.inl rfl)))))))
-  have a3 := attrCheck_true (hv _ (Or.inl (Or.inl (Or.inl (Or.inl (Or.inr (Or.inr (Or.inl rfl))))))))
-  have a4 := attrCheck_true (hv _ (Or.inl (Or.inl (Or.inl (Or.inl (Or.inr (Or.inr (Or.inr (Or.inl rfl)))))))))
-  have a5 := attrCheck_true (hv _ (Or.inl (Or.inl (Or.inl (Or.inl (Or.inr (Or.inr (Or.inr (Or.inr (Or.inl rfl))))))))))
-  have a6 := attrCheck_true (hv _ (Or.inl (Or.inl (Or.inl (Or.inl (Or.inr (Or.inr (Or.inr (Or.inr (Or.inr (Or.inl rfl)))))))))))
-  have a7 := attrCheck_true (hv _ (Or.inl (Or.inl (Or.inl (Or.inl (Or.inr (Or.inr (Or.inr (Or.inr (Or.inr (Or.inr (Or.inl rfl))))))))))))
-  have a8 := attrCheck_true (hv _ (Or.inl (Or.inl (Or.inl (Or.inl (Or.inr (Or.inr (Or.inr (Or.inr (Or.inr (Or.inr (Or.inr rfl))))))))))))
-  obtain ⟨sv, hsv, hsh⟩ := a4
-  obtain ⟨r, c, rfl⟩ := hShape_true hsh
-  have hg : ∀ p, (p = ["observation"] ∨ p = ["sample"] ∨ p = ["observation", "matrix"] ∨
-      p = ["sample", "matrix"]) → h.has p = true := by
-    intro p hp
-    have := hv (some (h.has p)) (Or.inl (Or.inl (Or.inl (Or.inr ⟨p, hp, rfl⟩))))
-    simpa using this
-  have hd : ∀ p, (p = ["observation", "ids"] ∨ p = ["observation", "matrix", "data"] ∨
-      p = ["observation", "matrix", "indices"] ∨ p = ["observation", "matrix", "indptr"] ∨
-      p = ["sample", "ids"] ∨ p = ["sample", "matrix", "data"] ∨ p = ["sample", "matrix", "indices"] ∨
-      p = ["sample", "matrix", "indptr"]) → h.has p = true := by
-    intro p hp
-    have := hv (some (h.has p)) (Or.inl (Or.inl (Or.inr ⟨p, hp, rfl⟩)))
-    simpa using this
-  have hsb : ∀ x ∈ shapeBlock h, x = some true := fun x hx => hv x (Or.inl (Or.inr hx))
-  simp only [shapeBlock, hsv, unpackA, List.mem_cons, List.not_mem_nil, or_false, forall_eq_or_imp,
-    forall_eq] at hsb
-  obtain ⟨n, hn, hnr⟩ := idsLenCheck_true hsb.1
-  obtain ⟨m, hm, hmc⟩ := idsLenCheck_true hsb.2
-  obtain ⟨_, h2, _⟩ := a2
-  obtain ⟨h21, hmg, n', m', hn', hm', hl1, hl2⟩ :=
-    versionBlock_true (hv (versionBlock h) (Or.inr rfl)) (by simp [h2])
+  simp only [checksH, List.mem_append, List.mem_cons, List.not_mem_nil, or_false] at hv
+  obtain ⟨h1, h2, h3, h4, hfv, n, m, hn, hm⟩ := common_true (fun c hc => hv c (Or.inl hc))
+  obtain ⟨h21, hmg, n', m', hn', hm', hl1, hl2⟩ := versionBlock_true (hv (versionBlock h) (Or.inr rfl)) hfv
   rw [hn] at hn'; rw [hm] at hm'
   cases hn'; cases hm'
   obtain ⟨g1, c1⟩ := mdLens_true hl1
   obtain ⟨g2, c2⟩ := mdLens_true hl2
-  refine ⟨?_, ⟨?_, hmg⟩, ?_, ?_, h21, ?_, ?_⟩
-  · obtain ⟨_, h1, _⟩ := a1; obtain ⟨_, h3, _⟩ := a3
-    obtain ⟨_, h5, _⟩ := a5; obtain ⟨_, h6, _⟩ := a6; obtain ⟨_, h7, _⟩ := a7; obtain ⟨_, h8, _⟩ := a8
-    simp [attrsB, requiredAttrs, h1, h2, h3, hsv, h5, h6, h7, h8]
-  · simp [coreGroupsB, coreGroups, hg]
-  · simp [datasetsB, requiredDatasets, hd]
-  · simp [shapeHB, shapeOfH, hsv, hn, hm, hnr, hmc]
+  refine ⟨h1, ⟨h2, hmg⟩, h3, h4, h21, ?_, ?_⟩
   · simp [mdKindB, g1, g2]
   · simp only [mdLensB, hn, hm, Bool.and_eq_true, List.all_eq_true, beq_iff_eq]
     exact ⟨c1, c2⟩
+
+/-- the same when validation against 2.0 is requested ('2.0', '2.0.0'): the metadata of a 2.0
+    file is optional, so only attributes, core groups, datasets, shape and version 2.0 follow -/
+theorem valid_h5_structural_v20_partial (dateOk : String → Bool) (h : H5)
+    (hv : validateH5v20 dateOk h = .valid) :
+    attrsB h = true ∧ coreGroupsB h = true ∧ datasetsB h = true ∧ shapeHB h = true ∧
+    version20 h = true := by
+  unfold validateH5v20 at hv
+  rw [verdictOf_valid] at hv
+  simp only [checksH20, List.mem_append, List.mem_cons, List.not_mem_nil, or_false] at hv
+  obtain ⟨h1, h2, h3, h4, hfv, _⟩ := common_true (fun c hc => hv c (Or.inl hc))
+  refine ⟨h1, h2, h3, h4, ?_⟩
+  have hvb := hv (versionBlock20 h) (Or.inr rfl)
+  unfold versionBlock20 at hvb
+  cases hf : h.attr "format-version" with
+  | none => rw [hf] at hfv; cases hfv
+  | some v =>
+    rw [hf] at hvb
+    cases v with
+    | ints l =>
+      simp only at hvb
+      split at hvb
+      · rename_i hl
+        have hl' : l = [2, 0] := by simpa using hl
+        simp [version20, hf, hl']
+      · cases hvb
+    | str s => cases hvb
+    | reals q => cases hvb
+    | int i => cases hvb
+    | real q => cases hvb
+    | other => cases hvb
 
 /-! ### HDF5: what the library writes is valid -/
 
@@ -693,7 +734,8 @@ theorem written_h5_valid (dateOk : String → Bool) (h : H5) (hw : writerTreeB d
       unfold validateH5
       rw [verdictOf_valid]
       intro x hx
-      simp only [checksH, List.mem_append, List.mem_cons, List.not_mem_nil, or_false, List.mem_map] at hx
+      simp only [checksH, checksCommon, List.mem_append, List.mem_cons, List.not_mem_nil, or_false,
+        List.mem_map] at hx
       rw [List.all_eq_true] at w8 w10
       rcases hx with (((hx | ⟨p, hp, rfl⟩) | ⟨p, hp, rfl⟩) | hx) | rfl
       · rcases hx with rfl | rfl | rfl | rfl | rfl | rfl | rfl | rfl
@@ -818,37 +860,59 @@ theorem model_holds (dateOk : String → Bool) (j : J) (isBase : Bool)
   rw [chk_true _ _ c1, chk_true _ _ c2, chk_true _ _ c3, chk_true _ _ c4]
   rfl
 
-def modelObsH (dateOk : String → Bool) (h : H5) (isBase : Bool) : H5Obs :=
-  { isBase := isBase, verdict := validateH5 dateOk h }
+def modelObsH (dateOk : String → Bool) (fv : FV) (h : H5) (isBase : Bool) : H5Obs :=
+  { isBase := isBase, verdict := validateH5As dateOk fv h, fv := fv }
 
-/-- **`holds` (HDF5) on the model, `_partial`**: guard = the conjuncts the validator does not look
-    at are true of the tree (`uncheckedConjunctsH`).  Without the guard the clause
-    `corrupt_rejected` fails (the `h5_*_witness` theorems). -/
-theorem model_holds_h5_partial (dateOk : String → Bool) (h : H5) (isBase : Bool)
+/-- **`holds` (HDF5) on the model, `_partial`**, for every accepted spelling of the `format_version`
+    argument: guard = the conjuncts the validator does not look at are true of the tree
+    (`uncheckedConjunctsH`).  Without the guard the clause `corrupt_rejected` fails (the
+    `h5_*_witness` theorems). -/
+theorem model_holds_h5_partial (dateOk : String → Bool) (fv : FV) (h : H5) (isBase : Bool)
     (hb : isBase = true → writerTreeB dateOk h = true)
     (hu : (uncheckedConjunctsH h).all (fun p => p.2) = true) :
-    holdsH5 h (modelObsH dateOk h isBase) = none := by
-  have c1 : (!isBase || validateH5 dateOk h == .valid) = true := by
-    cases hi : isBase with
-    | false => simp
-    | true => simp [written_h5_valid dateOk h (hb hi)]
-  have c2 : (checkedH h || validateH5 dateOk h != .valid) = true := by
-    cases hv : validateH5 dateOk h with
-    | valid =>
+    holdsH5 h (modelObsH dateOk fv h isBase) = none := by
+  have key : validateH5As dateOk fv h = .valid → checkedHAs fv h = true := by
+    intro hv
+    unfold validateH5As at hv
+    unfold checkedHAs
+    cases h2 : fv.two0 with
+    | true =>
+      simp only [h2, if_true] at hv ⊢
+      obtain ⟨h1, h2, h3, h4, h5⟩ := valid_h5_structural_v20_partial dateOk h hv
+      simp [checkedH20, checkedConjunctsH20, h1, h2, h3, h4, h5]
+    | false =>
+      simp only [h2, Bool.false_eq_true, if_false] at hv ⊢
       obtain ⟨h1, ⟨h2, h2'⟩, h3, h4, h5, h6, h7⟩ := valid_h5_structural_partial dateOk h hv
       simp [checkedH, checkedConjunctsH, h1, h2, h2', h3, h4, h5, h6, h7]
+  have c1 : (!isBase || fv.two0 || validateH5As dateOk fv h == .valid) = true := by
+    cases hi : isBase with
+    | false => simp
+    | true =>
+      cases h2 : fv.two0 with
+      | true => simp
+      | false => simp [validateH5As, h2, written_h5_valid dateOk h (hb hi)]
+  have c2 : (checkedHAs fv h || validateH5As dateOk fv h != .valid) = true := by
+    cases hv : validateH5As dateOk fv h with
+    | valid => simp [key hv]
     | invalid => simp
     | crash => simp
-  have c3 : (!(corruptH h) || validateH5 dateOk h != .valid) = true := by
-    cases hv : validateH5 dateOk h with
-    | valid =>
-      obtain ⟨h1, ⟨h2, h2'⟩, h3, h4, h5, h6, h7⟩ := valid_h5_structural_partial dateOk h hv
-      simp [corruptH, structuralHB, checkedH, checkedConjunctsH, h1, h2, h2', h3, h4, h5, h6, h7, hu]
+  have c3 : (!(corruptHAs fv h) || validateH5As dateOk fv h != .valid) = true := by
+    cases hv : validateH5As dateOk fv h with
+    | valid => simp [corruptHAs, key hv, hu]
     | invalid => simp
     | crash => simp
   simp only [holdsH5, modelObsH, Codec.allV, List.foldl_cons, List.foldl_nil]
   rw [chk_true _ _ c1, chk_true _ _ c2, chk_true _ _ c3]
   rfl
+
+/-- a written file is valid under each spelling that requests 2.1, and refused (version mismatch)
+    when validation against 2.0 is requested -/
+theorem written_h5_valid_all_spellings (dateOk : String → Bool) (h : H5)
+    (hw : writerTreeB dateOk h = true) :
+    validateH5As dateOk .default h = .valid ∧ validateH5As dateOk .v21 h = .valid ∧
+    validateH5As dateOk .v210 h = .valid := by
+  have := written_h5_valid dateOk h hw
+  simp [validateH5As, FV.two0, this]
 
 /-! ### concrete tables: non-vacuity and the witnesses of the known finding -/
 
@@ -869,6 +933,10 @@ example : structuralB (docOf wT) = true := by decide
 example : writerTreeB okDate wH = true := by decide
 example : validateH5 okDate wH = .valid := written_h5_valid okDate wH (by decide)
 example : structuralHB wH = true := by decide
+example : validateH5As okDate .v200 wH = .invalid := by decide
+example : validateH5As okDate .v20 (applyH (.deleteNode ["sample", "metadata"]) (applyH (.deleteNode ["observation", "metadata"])
+    (applyH (.setAttr "format-version" (.ints [2, 0])) wH))) = .valid := by decide
+example : validateH5As okDate .v210 (applyH (.deleteNode ["observation", "metadata"]) wH) = .invalid := by decide
 example : holdsJson (docOf wT) (modelObs okDate (docOf wT) true (some (wT.obs, wT.samp))) = none :=
   model_holds okDate _ true _ (fun _ => ⟨wT, by decide, rfl⟩)
     (fun _ _ h => by cases h; exact ⟨wT, by decide, rfl, rfl, rfl⟩)
